@@ -293,6 +293,9 @@ class C14(Prop):
         if spec['pre']:
             classes.append('pre-request')
 
+        if H.mentions_head(data):
+            return Result(True, classes=classes + ['skipped:HEAD'])
+
         rig = Rig(controllers=[Root()])
         obs = Obs().register(rig.srv)
         rig.settle()
